@@ -1,37 +1,47 @@
-"""Apply each seeded change to /repo, run the given checks, undo it.  Usage: seedscore.py <seed-root> [props...]"""
+"""Score the seeded changes: for each one, apply it to a scratch worktree of /repo, run the checks of a
+snapshot copy of /verif against that worktree (FB_REPO), undo it.  Neither /repo nor /verif is touched.
+Usage: seedscore.py <seed-root> [props...]   (env SEED_TIER, VERIF_SEED, SEED_ONLY=<substr>)"""
 import glob
 import json
 import os
+import shutil
 import subprocess
 import sys
 
 root = sys.argv[1]
 props = sys.argv[2:] or None
 VERIF = os.path.dirname(os.path.dirname(os.path.abspath(__file__)))
-manifest = json.load(open(os.path.join(VERIF, 'MANIFEST.json')))
+SNAP = '/tmp/verif_snap_%d' % os.getpid()
+WT = '/tmp/seedwt_%d' % os.getpid()
+subprocess.run(['rsync', '-a', '--exclude', '.git', '--exclude', 'replays', VERIF + '/', SNAP + '/'], check=True)
+subprocess.run(['git', '-C', '/repo', 'worktree', 'add', '--detach', WT, 'HEAD'], check=True, capture_output=True)
+manifest = json.load(open(os.path.join(SNAP, 'MANIFEST.json')))
 allprops = [c['property_id'] for c in manifest['checks']]
 rows = []
-for patch in sorted(glob.glob(os.path.join(root, '*', 'patch.diff')) + glob.glob(os.path.join(root, '*', '*', 'patch.diff'))):
-    name = os.path.relpath(os.path.dirname(patch), root)
-    assert subprocess.run(['git', '-C', '/repo', 'status', '--porcelain'], capture_output=True).stdout == b'', 'repo dirty'
-    r = subprocess.run(['git', '-C', '/repo', 'apply', '--3way', patch], capture_output=True)
-    if r.returncode != 0:
-        subprocess.run(['git', '-C', '/repo', 'checkout', '--', '.'])
-        subprocess.run(['git', '-C', '/repo', 'reset', '-q', '--hard'])
-        rows.append((name, 'PATCH-DOES-NOT-APPLY', r.stderr.decode()[-200:]))
-        print(rows[-1]); continue
-    try:
+only = os.environ.get('SEED_ONLY')
+try:
+    for patch in sorted(glob.glob(os.path.join(root, '*', 'patch.diff'))):
+        name = os.path.relpath(os.path.dirname(patch), root)
+        if only and only not in name:
+            continue
+        subprocess.run(['git', '-C', WT, 'reset', '-q', '--hard'])
+        r = subprocess.run(['git', '-C', WT, 'apply', '--3way', patch], capture_output=True)
+        if r.returncode != 0:
+            rows.append((name, 'PATCH-DOES-NOT-APPLY', r.stderr.decode()[-200:]))
+            print(rows[-1], flush=True)
+            continue
         caught = []
         for p in (props or allprops):
-            q = subprocess.run([os.path.join(VERIF, 'check'), p, '--tier', os.environ.get('SEED_TIER', 'quick')], capture_output=True, cwd=VERIF,
-                               env=dict(os.environ, VERIF_SEED=os.environ.get('VERIF_SEED', '0')))
+            q = subprocess.run([os.path.join(SNAP, 'check'), p, '--tier', os.environ.get('SEED_TIER', 'quick')],
+                               capture_output=True, cwd=SNAP,
+                               env=dict(os.environ, FB_REPO=WT, VERIF_SEED=os.environ.get('VERIF_SEED', '0')))
             if q.returncode == 1:
                 caught.append(p)
             elif q.returncode != 0:
-                caught.append(p + ':ERR')
+                caught.append(p + ':ERR(' + q.stdout.decode()[-120:].replace('\n', ' ') + ')')
         rows.append((name, 'caught by ' + ','.join(caught) if caught else 'MISSED', ''))
         print(rows[-1], flush=True)
-    finally:
-        subprocess.run(['git', '-C', '/repo', 'reset', '-q', '--hard'])
-        subprocess.run(['git', '-C', '/repo', 'checkout', '--', '.'])
+finally:
+    subprocess.run(['git', '-C', '/repo', 'worktree', 'remove', '--force', WT])
+    shutil.rmtree(SNAP, ignore_errors=True)
 print(json.dumps(rows, indent=1))
